@@ -80,6 +80,23 @@ static void run_grid(T g, bool dense_only, bool do_contains, bool do_range, uint
             if (samples < 2) { printf("{\"sample\": {\"grid\": \"3x3 subset mask %u\", \"n\": %zu}}\n", mask, pts.size()); ++samples; }
         }
     }
+    // (a2) a stored point duplicated many times (more than the search window) used as box corner, with larger codes present
+    for (unsigned copies : {3u, 12u, 40u, 200u}) {
+        std::vector<P2<T>> pts;
+        for (T x = 0; x < 12; ++x) for (T y = 0; y < 12; ++y) pts.push_back({x, y});
+        for (unsigned c = 0; c < copies; ++c) { pts.push_back({5, 6}); pts.push_back({2, 3}); }
+        ++distinct_cases;
+        if (!check2<T, 4>(pts, 11, sizeof(T) == 8 ? "MultidimensionalPGMIndex<2,uint64_t,4> duplicated corner" : "MultidimensionalPGMIndex<2,uint32_t,4> duplicated corner", do_contains, do_range)) return;
+        // boxes whose corners are the duplicated points
+        pgm::MultidimensionalPGMIndex<2, T, 4> idx(pts.begin(), pts.end());
+        for (auto bx : {std::pair<P2<T>, P2<T>>{{2, 3}, {5, 6}}, std::pair<P2<T>, P2<T>>{{0, 0}, {5, 6}}, std::pair<P2<T>, P2<T>>{{5, 6}, {5, 6}}, std::pair<P2<T>, P2<T>>{{2, 3}, {11, 11}}}) {
+            ++cases;
+            size_t want = 0, got = 0;
+            for (auto &p : pts) if (std::get<0>(p) >= std::get<0>(bx.first) && std::get<0>(p) <= std::get<0>(bx.second) && std::get<1>(p) >= std::get<1>(bx.first) && std::get<1>(p) <= std::get<1>(bx.second)) ++want;
+            for (auto it = idx.range(bx.first, bx.second); it != idx.end() && got < pts.size() + 5; ++it) ++got;
+            if (want != got) { printf("{\"violation\": \"C13 range with a %u-fold duplicated corner point returned %zu points, expected %zu\", \"input\": {\"config\": \"12x12 grid + duplicates of (5,6) and (2,3)\", \"copies\": %u}}\n", copies, got, want, copies); ++violations; return; }
+        }
+    }
     // (b) dense g x g grids (every cell, some duplicated): the Z-order skip is taken after 64 consecutive misses
     for (int r = 0; r < rounds; ++r) {
         std::vector<P2<T>> pts;
